@@ -86,6 +86,8 @@ impl<'a, T: Read + Seek> QueueReader<'a, T> {
     /// Return values for the next point by popping one value from each queue.
     /// Use an existing vector with enough capacity to avoid frequent reallocations!
     pub fn pop_point(&mut self, output: &mut RawValues) -> Result<()> {
+        #[cfg(e57_verif)]
+        crate::verif::work_add(self.pc.prototype.len());
         output.clear();
         for i in 0..self.pc.prototype.len() {
             let value = match &self.constants[i] {
@@ -125,6 +127,8 @@ impl<'a, T: Read + Seek> QueueReader<'a, T> {
                     .packet_length
                     .checked_sub(16)
                     .invalid_err("Index packet length is smaller than its header")?;
+                #[cfg(e57_verif)]
+                crate::verif::work_add(remaining as usize);
                 let mut buffer = vec![0; remaining as usize];
                 self.reader
                     .read_exact(&mut buffer)
